@@ -67,16 +67,27 @@ def make_monitor(ctx, case):
     import icontract
 
     def active_regs(drv, st):
-        return set(drv.conn.builder._mem_mgr._active_registers)
+        mm = drv.conn.builder._mem_mgr
+        return (set(mm._active_registers), {r for r, u in mm._used_meas_registers.items() if u})
 
     def balanced(drv, st, OLD):
         ctx.count("operations_balanced")
-        now = set(drv.conn.builder._mem_mgr._active_registers)
+        mm = drv.conn.builder._mem_mgr
+        now = set(mm._active_registers)
+        m_now = {r for r, u in mm._used_meas_registers.items() if u}
+        old_r, old_m = OLD.regs
+        # measurement registers: only an operation that hands an M register to the host (a register measurement) may keep one
+        keeps_m = _has_reg_measure(st)
+        if not keeps_m and m_now != old_m:
+            _state["viol"] = (f"completed operation {st['op']} changed the set of measurement registers in use: kept "
+                              f"{sorted(map(str, m_now - old_m))} (now {len(m_now)} of 16 in use)")
+            return True
+        OLD_regs = old_r
         if st["op"] == "reg":
             return True
-        if now != OLD.regs:
-            leaked = sorted(map(str, now - OLD.regs))
-            lost = sorted(map(str, OLD.regs - now))
+        if now != OLD_regs:
+            leaked = sorted(map(str, now - OLD_regs))
+            lost = sorted(map(str, OLD_regs - now))
             _state["viol"] = (f"completed operation {st['op']}{'/' + st.get('cond', '') if st['op'] == 'if' else ''} changed the set of "
                               f"active registers: leaked {leaked} released {lost} (now {len(now)} of 16 in use)")
         return True
@@ -92,6 +103,12 @@ def make_monitor(ctx, case):
             v, _state["viol"] = _state["viol"], None
             raise RegisterLeak(v)
     return on_top
+
+
+def _has_reg_measure(st):
+    if st["op"] == "meas" and st["to"]["kind"] == "reg":
+        return True
+    return any(_has_reg_measure(x) for x in st.get("body", []) + (st.get("cleanup") or []))
 
 
 def cases(ctx):
@@ -122,8 +139,16 @@ def cases(ctx):
         prog = []
         for j in range(rng.choice([40, 60, 100])):
             q = f"q{j}"
-            prog += [{"op": "qalloc", "q": q}, {"op": "gate", "g": rng.choice(["x", "h"]), "q": q},
-                     {"op": "meas", "q": q, "to": {"kind": "reg", "name": f"mr{j}"}, "inplace": False}]
+            style = rng.choice(["reg", "reg", "array-inplace", "array"])
+            prog += [{"op": "qalloc", "q": q}, {"op": "gate", "g": rng.choice(["x", "h"]), "q": q}]
+            if style == "reg":
+                prog += [{"op": "meas", "q": q, "to": {"kind": "reg", "name": f"mr{j}"}, "inplace": False}]
+            elif style == "array":
+                prog += [{"op": "meas", "q": q, "to": {"kind": "new", "name": f"m{j}"}, "inplace": False}]
+            else:
+                prog += [{"op": "meas", "q": q, "to": {"kind": "new", "name": f"m{j}"}, "inplace": True},
+                         {"op": "meas", "q": q, "to": {"kind": "entry", "array": f"m{j}", "idx": 0}, "inplace": True},
+                         {"op": "meas", "q": q, "to": {"kind": "new", "name": f"mm{j}"}, "inplace": False}]
             if (j + 1) % k == 0:
                 prog.append({"op": "flush"})
         yield {"kind": "mburst", "k": k, "prog": prog, "script": [rng.randrange(2) for _ in range(128)]}
